@@ -438,6 +438,15 @@ fn random(a: &Args) {
             typelike.push(t);
         }
     }
+    // lines that look like document markers (followed by nothing, a blank, a tab, text), first or later line
+    for m in ["---", "..."] {
+        for after in ["", " ", "\t", "x", " x", "\tx", " \t"] {
+            typelike.push(format!("a\n{m}{after}"));
+            typelike.push(format!("{m}{after}\nb"));
+            typelike.push(format!("a\n{m}{after}\nb\n"));
+            typelike.push(format!("{m}{after}"));
+        }
+    }
     typelike.push(format!("{}", f64::MAX));
     typelike.push(format!("{}", 1e40f64));
     typelike.push(format!("{}", f64::MIN_POSITIVE));
